@@ -250,4 +250,381 @@ Section CNP.
       injection H as <- <-. inversion G as [|? ? G1 G2]; subst.
       apply (IH s1 s2 rs'); [exact (step_inv _ _ _ _ I G1 ST)|exact G2|exact RN].
   Qed.
+
+  (* ---------------------------------------------------------------- the ghost log is the trace *)
+
+  Fixpoint accepted (evs : list cev) (rs : list cres) : list (N * list byte) :=
+    match evs, rs with
+    | CSend who (Some bs) _ :: evs', CROk :: rs' => (who, bs) :: accepted evs' rs'
+    | _ :: evs', _ :: rs' => accepted evs' rs'
+    | _, _ => []
+    end.
+
+  Lemma carrier_close_acc s : c_acc (fst (carrier_close s)) = c_acc s.
+  Proof. unfold carrier_close. destruct (c_closed s); reflexivity. Qed.
+
+  Lemma carrier_deadline_acc s : c_acc (fst (carrier_deadline s)) = c_acc s.
+  Proof.
+    unfold carrier_deadline. destruct (c_closed s && c_dlc s); [reflexivity|].
+    destruct (c_dlleft s) as [[|k]|]; reflexivity.
+  Qed.
+
+  Lemma step_acc s ev s' r : step s ev = (s', r) ->
+    c_acc s' = match ev, r with
+               | CSend who (Some bs) _, CROk => (who, bs) :: c_acc s
+               | _, _ => c_acc s
+               end.
+  Proof.
+    intros H. destruct ev as [who [bs|] async| | | | |z|]; cbn [cn_step] in H.
+    - destruct (mw_write (c_enc s) bs (negb async)) as [e' [c|]]; injection H as <- <-;
+        [rewrite carrier_close_acc|]; reflexivity.
+    - injection H as <- <-. apply carrier_close_acc.
+    - destruct (r_res (dec_read detect decode (c_lim s) (c_dec s))) as [fr p|er].
+      + destruct (carrier_deadline (set_dec s _)) as [s2 [c|]] eqn:DL; injection H as <- <-.
+        * rewrite carrier_close_acc. change s2 with (fst (s2, Some c)). rewrite <- DL, carrier_deadline_acc. reflexivity.
+        * change s2 with (fst (s2, @None N)). rewrite <- DL, carrier_deadline_acc. reflexivity.
+      + injection H as <- <-. rewrite carrier_close_acc. reflexivity.
+    - destruct (mw_write (c_enc s) [] true) as [e' r1]. destruct (carrier_close (set_enc s e')) as [s2 r2] eqn:CC.
+      injection H as <- <-. change s2 with (fst (s2, r2)). rewrite <- CC, carrier_close_acc.
+      destruct r1; [reflexivity|destruct r2; reflexivity].
+    - injection H as <- <-. reflexivity.
+    - injection H as <- <-. apply carrier_deadline_acc.
+    - injection H as <- <-. reflexivity.
+    - injection H as <- <-. destruct (e_fail (c_enc s)); reflexivity.
+  Qed.
+
+  (* the accepted-sends log is exactly the Sends that returned nil, in the order of the events *)
+  Lemma run_acc evs : forall s s' rs,
+    run s evs = (s', rs) -> c_acc s' = rev (accepted evs rs) ++ c_acc s.
+  Proof.
+    induction evs as [|ev evs IH]; intros s s' rs H; cbn [cn_run] in H.
+    - injection H as <- <-. reflexivity.
+    - destruct (step s ev) as [s1 r] eqn:ST. destruct (run s1 evs) as [s2 rs'] eqn:RN.
+      injection H as <- <-. rewrite (IH _ _ _ RN), (step_acc _ _ _ _ ST).
+      destruct ev as [who [bs|] async| | | | |z|]; cbn [accepted]; try reflexivity.
+      destruct r; cbn [rev]; try reflexivity. rewrite <- app_assoc. reflexivity.
+  Qed.
+
+  (* C19_whole.  For every carrier script and every sequence of events: the bytes on the
+     wire are a prefix of the concatenation of the encodings handed to the writer, in the
+     order of the Send events (which extends every sender's own order); all of those
+     Sends returned nil except possibly the last one, after which the writer is dead.
+     So the wire holds whole packets, in order, never interleaved, plus at most the
+     beginning of one packet whose Send reported the failure. *)
+  Theorem whole d0 wl cs e lim dl dlc cf evs s rs :
+    Forall good_ev evs ->
+    run (cinit d0 wl cs e lim dl dlc cf) evs = (s, rs) ->
+    (exists rest, cn_wire s ++ rest = log_bytes (c_sent s)) /\
+    (c_sent s = c_acc s \/ exists x, c_sent s = x :: c_acc s /\ e_berr (c_enc s) <> None) /\
+    rev (c_acc s) = accepted evs rs.
+  Proof.
+    intros G H. pose proof (run_inv _ _ _ _ (inv_init d0 wl cs e lim dl dlc cf) G H) as (I1 & I2 & I3 & _).
+    split; [exact I2|]. split.
+    - destruct I3 as [E|[x E]]; [left; exact E|]. right. exists x. split; [exact E|].
+      intros B. destruct (I1 B) as [SA _]. rewrite SA in E.
+      apply (f_equal (@length _)) in E. cbn [length] in E. lia.
+    - rewrite (run_acc _ _ _ _ H). cbn [cinit c_acc]. rewrite app_nil_r, rev_involutive. reflexivity.
+  Qed.
+
+  (* ---------------------------------------------------------------- Close loses nothing *)
+
+  Theorem close_flushes s s' r :
+    inv s -> healthy (c_enc s) -> step s CClose = (s', r) ->
+    cn_wire s' = log_bytes (c_acc s') /\ c_acc s' = c_acc s /\ c_sent s' = c_acc s' /\
+    e_buf (c_enc s') = [] /\ c_closed s' = true /\
+    (c_closed s = false -> c_clfail s = false -> r = CROk).
+  Proof.
+    intros I (B & A & CF) H. cbn [cn_step] in H.
+    destruct (mw_write (c_enc s) [] true) as [e' r1] eqn:MW.
+    pose proof (mw_write_spec _ _ _ _ _ MW) as (D & M). rewrite A, B in M. destruct M as (A' & M).
+    destruct r1 as [c|]; [exfalso; destruct M as (_ & _ & NC & _); exact (NC CF)|].
+    destruct M as (M1 & M2 & M3 & M4 & M5 & M6). rewrite app_nil_r in M1.
+    specialize (M4 (or_introl eq_refl)). rewrite M4, app_nil_r in M1.
+    destruct (carrier_close (set_enc s e')) as [s2 r2] eqn:CC. injection H as <- <-.
+    destruct I as (I1 & _). destruct (I1 B) as [SA WB]. unfold cn_wire in *.
+    unfold carrier_close in CC. cbn [set_enc c_closed c_enc c_dec c_lim c_dlleft c_dlc c_clfail c_sent c_acc] in CC.
+    destruct (c_closed s) eqn:C; injection CC as <- <-;
+      cbn [c_enc c_acc c_sent c_closed set_enc set_fail e_buf];
+      change (wire_bytes (set_fail e' (Some code_closed))) with (wire_bytes e');
+      rewrite M1, WB; (split; [reflexivity|]); (split; [reflexivity|]); (split; [exact SA|]); (split; [exact M4|]);
+      (split; [first [reflexivity|exact C]|]).
+    - discriminate.
+    - intros _ ->. reflexivity.
+  Qed.
+
+  (* sends, timer firings and delay changes on a connection whose carrier never fails *)
+  Definition quiet_ev (ev : cev) : Prop :=
+    match ev with
+    | CSend _ (Some (_ :: _)) _ | CTimer | CDelay _ | CSetTimeout => True
+    | _ => False
+    end.
+
+  Lemma quiet_step s ev s' r :
+    inv s -> healthy (c_enc s) -> c_closed s = false -> quiet_ev ev -> step s ev = (s', r) ->
+    healthy (c_enc s') /\ c_closed s' = false /\ (r = CROk \/ r = CRNone) /\ c_clfail s' = c_clfail s.
+  Proof.
+    intros I Hh C Q H. destruct ev as [who [[|b0 bt]|] async| | | | |z|]; cbn [quiet_ev] in Q; try contradiction;
+      cbn [cn_step] in H.
+    - destruct (mw_write (c_enc s) (b0 :: bt) (negb async)) as [e' r1] eqn:MW.
+      assert (ES : enc_step (c_enc s) (EvWrite (Some (b0 :: bt)) async) = (e', eres_of r1)).
+      { cbn [enc_step]. rewrite MW. reflexivity. }
+      destruct (healthy_step _ (EvWrite (Some (b0 :: bt)) async) _ _ Hh Logic.I ES) as (H1 & _ & NE & _).
+      destruct r1 as [c|]; [exfalso; exact (NE c eq_refl)|]. injection H as <- <-. cbn [c_enc c_closed c_clfail]. auto.
+    - injection H as <- <-. cbn [set_enc c_enc c_closed c_clfail].
+      assert (ES : enc_step (c_enc s) EvTimer = (mw_timer (c_enc s), ERNone)) by reflexivity.
+      destruct (healthy_step _ EvTimer _ _ Hh Logic.I ES) as (H1 & _). auto.
+    - injection H as <- <-. unfold carrier_deadline. rewrite C. cbn [andb].
+      destruct (c_dlleft s) as [[|k]|]; cbn [fst c_enc c_closed c_clfail]; auto.
+    - injection H as <- <-. cbn [set_enc c_enc c_closed c_clfail].
+      assert (ES : enc_step (c_enc s) (EvDelay z) = (set_delay0 (c_enc s) z, ERNone)) by reflexivity.
+      destruct (healthy_step _ (EvDelay z) _ _ Hh Logic.I ES) as (H1 & _). auto.
+  Qed.
+
+  Lemma quiet_good ev : quiet_ev ev -> good_ev ev.
+  Proof. destruct ev as [who [[|b0 bt]|] async| | | | |z|]; cbn; auto. Qed.
+
+  Lemma quiet_run evs : forall s s' rs,
+    inv s -> healthy (c_enc s) -> c_closed s = false -> Forall quiet_ev evs -> run s evs = (s', rs) ->
+    inv s' /\ healthy (c_enc s') /\ c_closed s' = false /\ Forall (fun r => r = CROk \/ r = CRNone) rs /\
+    c_clfail s' = c_clfail s.
+  Proof.
+    induction evs as [|ev evs IH]; intros s s' rs I Hh C Q H; cbn [cn_run] in H.
+    - injection H as <- <-. auto.
+    - destruct (step s ev) as [s1 r] eqn:ST. destruct (run s1 evs) as [s2 rs'] eqn:RN.
+      injection H as <- <-. inversion Q as [|? ? Q1 Q2]; subst.
+      destruct (quiet_step _ _ _ _ I Hh C Q1 ST) as (H1 & C1 & R1 & F1).
+      pose proof (step_inv _ _ _ _ I (quiet_good _ Q1) ST) as I1.
+      destruct (IH _ _ _ I1 H1 C1 Q2 RN) as (I2 & H2 & C2 & R2 & F2).
+      repeat split; auto. congruence.
+  Qed.
+
+  Definition sends_of (evs : list cev) : list (list byte) :=
+    concat (map (fun ev => match ev with CSend _ (Some bs) _ => [bs] | _ => [] end) evs).
+
+  Lemma accepted_quiet evs : forall rs,
+    Forall quiet_ev evs -> length rs = length evs ->
+    Forall (fun r => r = CROk \/ r = CRNone) rs ->
+    (forall ev r, In (ev, r) (combine evs rs) -> match ev with CSend _ _ _ => r = CROk | _ => True end) ->
+    map snd (accepted evs rs) = sends_of evs.
+  Proof.
+    unfold sends_of.
+    induction evs as [|ev evs IH]; intros rs Q L R S; destruct rs as [|r rs]; cbn [length] in L; try discriminate; [reflexivity|].
+    inversion Q as [|? ? Q1 Q2]; subst. inversion R as [|? ? R1 R2]; subst.
+    assert (S' : forall ev0 r0, In (ev0, r0) (combine evs rs) -> match ev0 with CSend _ _ _ => r0 = CROk | _ => True end).
+    { intros ev0 r0 HI. apply S. right. exact HI. }
+    specialize (IH rs Q2 (eq_add_S _ _ L) R2 S').
+    pose proof (S ev r (or_introl eq_refl)) as S0.
+    destruct ev as [who [bs|] async| | | | |z|]; cbn [accepted map concat app quiet_ev] in *; try contradiction;
+      try (destruct r; exact IH).
+    subst r. cbn [map snd]. f_equal. exact IH.
+  Qed.
+
+  Lemma run_length evs : forall s s' rs, run s evs = (s', rs) -> length rs = length evs.
+  Proof.
+    induction evs as [|ev evs IH]; intros s s' rs H; cbn [cn_run] in H.
+    - injection H as <- <-. reflexivity.
+    - destruct (step s ev) as [s1 r]. destruct (run s1 evs) as [s2 rs'] eqn:RN. injection H as <- <-.
+      cbn [length]. f_equal. exact (IH _ _ _ RN).
+  Qed.
+
+  (* C19_close_flushes.  No carrier failure: after any mix of flushed and buffered Sends,
+     timer firings and delay changes, every Send has returned nil, and once Close returns
+     (nil) the wire is exactly the concatenation of everything sent, the last buffered
+     packet included, and nothing is left in the buffer. *)
+  Theorem close_loses_nothing d0 cs e lim dl dlc evs s rs :
+    Forall quiet_ev evs ->
+    run (cinit d0 None cs e lim dl dlc false) (evs ++ [CClose]) = (s, rs) ->
+    cn_wire s = concat (sends_of evs) /\ e_buf (c_enc s) = [] /\
+    Forall (fun r => r = CROk \/ r = CRNone) rs /\ last rs CRNone = CROk.
+  Proof.
+    intros Q H.
+    assert (SPLIT : exists s1 rs1 r, run (cinit d0 None cs e lim dl dlc false) evs = (s1, rs1) /\
+                     step s1 CClose = (s, r) /\ rs = rs1 ++ [r]).
+    { revert H. generalize (cinit d0 None cs e lim dl dlc false). clear Q.
+      induction evs as [|ev evs IH]; intros s0 H; cbn [app cn_run] in H |- *.
+      - destruct (step s0 CClose) as [s1 r] eqn:ST. injection H as <- <-. exists s0, [], r. auto.
+      - destruct (step s0 ev) as [s1 r1]. destruct (run s1 (evs ++ [CClose])) as [s2 rs2] eqn:RN.
+        injection H as <- <-. destruct (IH _ RN) as (sa & rsa & r & E1 & E2 & E3).
+        rewrite E1. exists sa, (r1 :: rsa), r. subst rs2. auto. }
+    destruct SPLIT as (s1 & rs1 & r & RN & ST & ->).
+    destruct (quiet_run _ _ _ _ (inv_init _ _ _ _ _ _ _ _) (healthy_init d0) eq_refl Q RN) as (I1 & H1 & C1 & R1 & F1).
+    destruct (close_flushes _ _ _ I1 H1 ST) as (W & A & SA & Bf & C & RO).
+    specialize (RO C1 F1). subst r.
+    split; [|split; [exact Bf|split]].
+    - rewrite W, A. unfold log_bytes. f_equal.
+      pose proof (run_acc _ _ _ _ RN) as RA. cbn [cinit c_acc] in RA. rewrite app_nil_r in RA.
+      rewrite RA, rev_involutive. apply accepted_quiet; auto.
+      + exact (run_length _ _ _ _ RN).
+      + (* every Send among quiet events returned nil *)
+        intros ev r HI. destruct ev; auto.
+        assert (X : r = CROk \/ r = CRNone).
+        { apply in_combine_r in HI. rewrite Forall_forall in R1. exact (R1 _ HI). }
+        destruct X as [X|X]; [exact X|]. exfalso. subst r.
+        (* a Send never returns "no result" *)
+        clear - RN HI. revert RN HI. generalize (cinit d0 None cs e lim dl dlc false).
+        revert rs1. induction evs as [|ev evs IH]; intros rs1 s0 RN HI; cbn [cn_run] in RN.
+        * injection RN as <- <-. cbn in HI. contradiction.
+        * destruct (step s0 ev) as [sa ra] eqn:ST. destruct (run sa evs) as [sb rsb] eqn:RN2.
+          injection RN as <- <-. cbn [combine In] in HI. destruct HI as [HI|HI].
+          -- injection HI as -> ->. cbn [cn_step] in ST. destruct bs as [bs|].
+             ++ destruct (mw_write (c_enc s0) bs (negb async)) as [e' [c|]]; injection ST as <- <-; discriminate.
+             ++ injection ST as <- <-. discriminate.
+          -- exact (IH _ _ RN2 HI).
+    - apply Forall_app. split; [exact R1|constructor; [left; reflexivity|constructor]].
+    - rewrite last_last. reflexivity.
+  Qed.
+
+  (* ---------------------------------------------------------------- after Close / after an error *)
+
+  (* every error returned by Send or Receive, and every Close, leaves the carrier closed *)
+  Theorem errors_close s ev s' r :
+    step s ev = (s', r) ->
+    match ev, r with
+    | CSend _ _ _, CROk => True
+    | CSend _ _ _, _ => c_closed s' = true
+    | CReceive, CRPacket _ _ => True
+    | CReceive, _ => c_closed s' = true
+    | CClose, _ => c_closed s' = true
+    | _, _ => True
+    end.
+  Proof.
+    assert (CL : forall x, c_closed (fst (carrier_close x)) = true).
+    { intros x. unfold carrier_close. destruct (c_closed x) eqn:C; [exact C|reflexivity]. }
+    intros H. destruct ev as [who [bs|] async| | | | |z|]; cbn [cn_step] in H; auto.
+    - destruct (mw_write (c_enc s) bs (negb async)) as [e' [c|]]; injection H as <- <-; [apply CL|exact I].
+    - injection H as <- <-. apply CL.
+    - destruct (r_res (dec_read detect decode (c_lim s) (c_dec s))) as [fr p|er].
+      + destruct (carrier_deadline (set_dec s _)) as [s2 [c|]]; injection H as <- <-; [apply CL|exact I].
+      + injection H as <- <-. apply CL.
+    - destruct (mw_write (c_enc s) [] true) as [e' r1]. destruct (carrier_close (set_enc s e')) as [s2 r2] eqn:CC.
+      injection H as <- _. change s2 with (fst (s2, r2)). rewrite <- CC. destruct r; apply CL.
+  Qed.
+
+  (* (a) on a closed connection a Send that has to flush (sync, or delay 0) fails at once *)
+  Theorem after_close_flushed_send s who bs async s' r :
+    inv s -> c_closed s = true -> bs <> [] -> async = false \/ e_delay0 (c_enc s) = true ->
+    step s (CSend who (Some bs) async) = (s', r) -> r <> CROk.
+  Proof.
+    intros (_ & _ & _ & I4 & _) C Hb Hf H. destruct (I4 C) as (F & _).
+    destruct (e_fail (c_enc s)) as [cf|] eqn:F0; [|contradiction].
+    cbn [cn_step] in H. destruct (mw_write (c_enc s) bs (negb async)) as [e' r1] eqn:MW.
+    assert (NR : r1 <> None).
+    { eapply dead_carrier_flushed_write; [exact F0|exact Hb| |exact MW].
+      destruct Hf as [->|X]; [left; reflexivity|right; exact X]. }
+    destruct r1 as [c|]; [|contradiction]. injection H as <- <-. discriminate.
+  Qed.
+
+  (* (b) if a buffered Send is accepted on a closed connection, its bytes sit in the buffer
+     and the flush timer is armed (or the writer is already dead) … *)
+  Theorem after_close_buffered_send s who bs async s' :
+    inv s -> c_closed s = true -> bs <> [] ->
+    step s (CSend who (Some bs) async) = (s', CROk) ->
+    c_closed s' = true /\ e_buf (c_enc s') <> [] /\ (e_armed (c_enc s') = true \/ e_berr (c_enc s') <> None).
+  Proof.
+    intros I C Hb H. pose proof (step_inv _ _ _ _ I (ltac:(destruct bs; [contradiction|exact Logic.I]) : good_ev (CSend who (Some bs) async)) H) as I'.
+    destruct I as (_ & _ & _ & I4 & _). destruct (I4 C) as (F & _).
+    destruct (e_fail (c_enc s)) as [cf|] eqn:F0; [|contradiction].
+    cbn [cn_step] in H. destruct (mw_write (c_enc s) bs (negb async)) as [e' r1] eqn:MW.
+    destruct r1 as [c|]; [injection H as _ H; discriminate|]. injection H as <-.
+    cbn [c_closed c_enc]. split; [exact C|].
+    assert (NB : e_buf e' <> []).
+    { unfold mw_write in MW. destruct (e_aerr (c_enc s)); [discriminate|].
+      destruct bs as [|b0 bt]; [contradiction|]. cbn [is_nil] in MW.
+      destruct (bw_write (c_enc s) (b0 :: bt)) as [s1 [c1|]] eqn:BW; [discriminate|].
+      destruct (dead_carrier_bw_write _ _ _ _ F0 BW Hb) as (F1 & B1 & _).
+      destruct (negb async || e_delay0 s1).
+      - destruct (bw_flush s1) as [s2 [c2|]] eqn:FL; [discriminate|]. exfalso. exact (dead_carrier_flush _ _ _ F1 B1 FL).
+      - injection MW as <-. exact B1. }
+    split; [exact NB|]. destruct I' as (_ & _ & _ & _ & I5). exact (I5 NB).
+  Qed.
+
+  (* … when the timer fires the writer dies … *)
+  Theorem after_close_timer s s' r :
+    inv s -> c_closed s = true -> e_buf (c_enc s) <> [] -> step s CTimer = (s', r) ->
+    e_berr (c_enc s') <> None.
+  Proof.
+    intros (_ & _ & _ & I4 & _) C Hb H. destruct (I4 C) as (F & _). injection H as <- _.
+    cbn [set_enc c_enc]. pose proof (mw_timer_spec (c_enc s)) as (_ & _ & T).
+    destruct (e_berr (c_enc s)) as [cb|].
+    - destruct T as (_ & _ & T3 & _). rewrite T3. discriminate.
+    - destruct T as [(_ & _ & _ & _ & _ & _ & T7)|(_ & _ & T3 & _)]; [exfalso; exact (F (T7 Hb))|exact T3].
+  Qed.
+
+  (* … and a dead writer stays dead: every later Send of a packet, and Close, report an error *)
+  Theorem dead_writer_forever s ev s' r :
+    e_berr (c_enc s) <> None -> good_ev ev -> step s ev = (s', r) ->
+    e_berr (c_enc s') <> None /\
+    match ev with CSend _ _ _ | CClose => r <> CROk | _ => True end.
+  Proof.
+    assert (CL : forall x, e_berr (c_enc (fst (carrier_close x))) = e_berr (c_enc x)).
+    { intros x. unfold carrier_close. destruct (c_closed x); reflexivity. }
+    assert (DL : forall x, e_berr (c_enc (fst (carrier_deadline x))) = e_berr (c_enc x)).
+    { intros x. unfold carrier_deadline. destruct (c_closed x && c_dlc x); [reflexivity|].
+      destruct (c_dlleft x) as [[|k]|]; reflexivity. }
+    intros B G H. destruct (e_berr (c_enc s)) as [cb|] eqn:B0; [clear B|contradiction].
+    destruct ev as [who [bs|] async| | | | |z|]; cbn [cn_step] in H.
+    - destruct (mw_write (c_enc s) bs (negb async)) as [e' r1] eqn:MW.
+      pose proof (mw_write_spec _ _ _ _ _ MW) as (_ & M).
+      destruct (e_aerr (c_enc s)) as [ca|].
+      + destruct M as [-> ->]. injection H as <- <-. rewrite CL. cbn [c_enc set_aerr e_berr]. rewrite B0.
+        split; discriminate.
+      + destruct M as (_ & M). rewrite B0 in M. destruct M as (M0 & _ & M2 & _).
+        assert (Hp : bs <> []) by (destruct bs; [contradiction|discriminate]).
+        destruct (M0 (or_introl Hp)) as [-> ->]. injection H as <- <-. rewrite CL. cbn [c_enc]. rewrite B0.
+        split; discriminate.
+    - injection H as <- <-. rewrite CL, B0. split; discriminate.
+    - destruct (r_res (dec_read detect decode (c_lim s) (c_dec s))) as [fr p|er].
+      + destruct (carrier_deadline (set_dec s _)) as [s2 [c|]] eqn:D; injection H as <- <-.
+        * rewrite CL. change s2 with (fst (s2, Some c)). rewrite <- D, DL. cbn [set_dec c_enc]. rewrite B0. split; [discriminate|exact I].
+        * change s2 with (fst (s2, @None N)). rewrite <- D, DL. cbn [set_dec c_enc]. rewrite B0. split; [discriminate|exact I].
+      + injection H as <- <-. rewrite CL. cbn [set_dec c_enc]. rewrite B0. split; [discriminate|exact I].
+    - destruct (mw_write (c_enc s) [] true) as [e' r1] eqn:MW.
+      pose proof (mw_write_spec _ _ _ _ _ MW) as (_ & M).
+      destruct (carrier_close (set_enc s e')) as [s2 r2] eqn:CC. injection H as <- <-.
+      change s2 with (fst (s2, r2)). rewrite <- CC, CL. cbn [set_enc c_enc].
+      destruct (e_aerr (c_enc s)) as [ca|].
+      + destruct M as [-> ->]. cbn [set_aerr e_berr]. rewrite B0. split; discriminate.
+      + destruct M as (_ & M). rewrite B0 in M. destruct M as (M0 & _ & M2 & _).
+        destruct (M0 (or_intror (or_introl eq_refl))) as [-> ->]. rewrite B0. split; discriminate.
+    - injection H as <- <-. cbn [set_enc c_enc]. pose proof (mw_timer_spec (c_enc s)) as (_ & _ & T).
+      rewrite B0 in T. destruct T as (_ & _ & T3 & _). rewrite T3. split; [discriminate|exact I].
+    - injection H as <- <-. rewrite DL, B0. split; [discriminate|exact I].
+    - injection H as <- <-. cbn [set_enc c_enc set_delay0 e_berr]. rewrite B0. split; [discriminate|exact I].
+    - injection H as <- <-. destruct (e_fail (c_enc s)); cbn [set_enc c_enc set_fail e_berr]; rewrite B0; split; try discriminate; exact I.
+  Qed.
+
+  (* (c) Receive on a closed connection never waits for the carrier: it returns a packet cut
+     from the front of the bytes already buffered (the buffer gets strictly shorter), or an
+     error; with an empty buffer it is an error *)
+  Theorem after_close_receive s s' r :
+    inv s -> c_closed s = true -> step s CReceive = (s', r) ->
+    c_closed s' = true /\
+    match r with
+    | CRPacket fr p => d_buf (c_dec s) = fr ++ d_buf (c_dec s') /\ fr <> []
+    | CRRecvErr _ | CRErr _ => True
+    | _ => False
+    end /\
+    (d_buf (c_dec s) = [] -> r = CRRecvErr (ESource code_closed)).
+  Proof.
+    intros I C H. pose proof (step_inv _ _ _ _ I Logic.I H) as I'.
+    destruct I as (_ & _ & _ & I4 & _). destruct (I4 C) as (_ & D1 & D2).
+    assert (CB : forall x, d_buf (c_dec (fst (carrier_close x))) = d_buf (c_dec x) /\ c_closed (fst (carrier_close x)) = true).
+    { intros x. unfold carrier_close. destruct (c_closed x) eqn:Cx; auto. }
+    assert (DB : forall x, d_buf (c_dec (fst (carrier_deadline x))) = d_buf (c_dec x) /\
+                           c_closed (fst (carrier_deadline x)) = c_closed x).
+    { intros x. unfold carrier_deadline. destruct (c_closed x && c_dlc x); auto.
+      destruct (c_dlleft x) as [[|k]|]; auto. }
+    cbn [cn_step] in H.
+    pose proof (dec_read_drained (c_lim s) (c_dec s) D1) as (R1 & R2 & R3).
+    set (rd := dec_read detect decode (c_lim s) (c_dec s)) in *.
+    assert (EMP : d_buf (c_dec s) = [] -> r_res rd = RFail (ESource code_closed)).
+    { intros E. unfold rd, dec_read. rewrite E, D1, D2. reflexivity. }
+    destruct (r_res rd) as [fr p|er] eqn:RR.
+    - destruct (carrier_deadline (set_dec s (r_state rd))) as [s2 [c|]] eqn:DL; injection H as <- <-.
+      + destruct (CB s2) as [_ X]. split; [exact X|]. split; [exact I|]. intros E. specialize (EMP E). discriminate.
+      + pose proof (DB (set_dec s (r_state rd))) as [X Y]. rewrite DL in X, Y. cbn [fst set_dec c_dec c_closed] in X, Y.
+        split; [rewrite Y; exact C|]. split; [rewrite X; exact R3|]. intros E. specialize (EMP E). discriminate.
+    - injection H as <- <-. destruct (CB (set_dec s (r_state rd))) as [_ X]. split; [exact X|]. split; [exact I|].
+      intros E. specialize (EMP E). injection EMP as ->. reflexivity.
+  Qed.
 End CNP.
